@@ -23,11 +23,28 @@ For each change k in (1, 2) deliver, in OUT/:
   - notes<k>.md : 5-10 lines: what the change is, why it breaks the property, and what specific circumstances it needs in order to manifest.
 
 Before finishing, verify for each patch yourself: with the patch applied the full test suite passes and the demo fails; with the patch reverted the demo passes. Leave the worktree clean (git checkout -- .) at the end. In your final message, report for each patch: files/functions touched, test-suite result, demo result with and without the patch.'''
-for pid in sys.argv[1:]:
+# usage: seed_prompt.py [--round N] <property> ...   (round 1: patches 1,2; round 2: patches 3,4; ...)
+args = sys.argv[1:]
+rnd = 1
+if args and args[0] == '--round':
+    rnd = int(args[1]); args = args[2:]
+for pid in args:
     p = props[pid]
-    out = '/tmp/seed-out/' + pid
+    tag = pid if rnd == 1 else '%sr%d' % (pid, rnd)
+    out = '/tmp/seed-out/' + tag
     os.makedirs(out, exist_ok=True)
-    t = (tmpl.replace('WT', '/tmp/wt-' + pid).replace('OUT', out).replace('TITLE', p['title'])
+    t = (tmpl.replace('WT', '/tmp/wt-' + tag).replace('OUT', out).replace('TITLE', p['title'])
          .replace('STATEMENT', p['statement']).replace('QUANT', p['quantifier']['text']))
+    if rnd > 1:
+        # earlier rounds' touched functions, so that the new changes use other mechanisms
+        prev = []
+        import glob
+        for m in sorted(glob.glob('/verif/seeded/%s-*/meta.json' % pid)):
+            first = (json.load(open(m)).get('needs_to_manifest') or '').strip().splitlines()
+            if first:
+                prev.append(first[0].lstrip('# ').strip())
+        if prev:
+            t += ('\n\nEarlier changes made by other developers for this exercise were: '
+                  + ' | '.join(prev) + ' -- choose different functions / mechanisms than those.')
     open(out + '/prompt.txt', 'w').write(t)
     print(out + '/prompt.txt')
